@@ -6,7 +6,7 @@
 (*  Gen: the same state machine in simulation mode prints histories (hist) of  *)
 (*       exactly MaxOps calls, which the driver replays on the real cgroupfs.  *)
 EXTENDS Cgroup, TLC, Json, SequencesExt
-CONSTANTS CtlSets, Names, RNames, PidSet, MaxOps, MaxDepth, MaxHandles, WithSet, Emit
+CONSTANTS CtlSets, Names, RNames, PidSet, MaxOps, MaxDepth, MaxHandles, WithSet, Rich, Emit
 VARIABLES S, ok, hist
 vars == <<S, ok, hist>>
 
@@ -14,7 +14,7 @@ Op(o, h, name, names, path, pid, kind, val) ==
   [op |-> o, h |-> h, name |-> name, names |-> names, path |-> path, pid |-> pid, kind |-> kind, val |-> val]
 
 S0(cs, pre) == [ctls |-> cs, dirs |-> [c \in cs |-> IF c \in pre THEN {<<>>} ELSE {}],
-                mem |-> [c \in cs |-> [k \in PidSet |-> Outside]], hs |-> <<>>]
+                mem |-> [c \in cs |-> [k \in PidSet |-> Outside]], hs |-> <<>>, lim |-> {}]
 \* the first call of every history creates the base group (v1 with a set of controllers, or cgroup2:
 \* {"u"}); before it an administrator may have made the base directory in some of the hierarchies
 Init == \E cs \in CtlSets : \E pre \in (SUBSET cs) \ {cs} :
@@ -23,7 +23,11 @@ Init == \E cs \in CtlSets : \E pre \in (SUBSET cs) \ {cs} :
         /\ hist = (IF pre = {} THEN <<>> ELSE <<Op("mk", 0, "", SetToSeq(pre), <<>>, "", "", 0)>>)
                   \o <<Op("top", 0, "", SetToSeq(cs), <<>>, "", "", 0)>>
 
-KindOK(k) == (k = "mem" /\ "memory" \in S.ctls) \/ (k \in {"cpu", "pids"} /\ k \in S.ctls)
+KindOK(k) == (k = "mem" /\ "memory" \in S.ctls) \/ (k \in {"cpu", "pids"} /\ k \in S.ctls) \/ (k = "cpus" /\ "cpuset" \in S.ctls)
+\* <<kind, value as written, number handed to the driver>> (cpus: 1 = "0", 2 = "0-1", 3 = "2-3")
+SetVals == IF Rich THEN { <<"mem", "67108864", 67108864>>, <<"mem", "8388608", 8388608>>, <<"cpu", "50000", 50000>>,
+                          <<"cpu", "100000", 100000>>, <<"pids", "7", 7>>, <<"cpus", "0", 1>>, <<"cpus", "0-1", 2>>, <<"cpus", "2-3", 3>>}
+           ELSE { <<"mem", "8388608", 8388608>>, <<"cpu", "50000", 50000>>, <<"cpus", "0-1", 2>> }
 Usable(h) == S.hs[h].live /\ Exists(S, S.hs[h].path)
 Room == Len(S.hs) < MaxHandles
 \* adm: the implementation's result is admissible at the property layer
@@ -58,11 +62,15 @@ Next ==
      \/ \E h \in DOMAIN S.hs :
           /\ S.hs[h].live
           /\ Step(ImplDestroy(S, h), AdmDestroy(S, h, ImplDestroy(S, h)), Op("destroy", h, "", <<>>, <<>>, "", "", 0))
+     \* Set*: the value is a decimal string, or (cpus) a cpu list; the same limit may be set again
      \/ /\ WithSet
-        /\ \E h \in DOMAIN S.hs, kv \in {<<"mem", 67108864>>, <<"mem", 8388608>>, <<"cpu", 50000>>, <<"cpu", 100000>>, <<"pids", 7>>} :
+        /\ \E h \in DOMAIN S.hs, kv \in SetVals :
              /\ Usable(h) /\ KindOK(kv[1])
-             /\ UNCHANGED <<S, ok>>
-             /\ hist' = Append(hist, Op("set", h, "", <<>>, <<>>, "", kv[1], kv[2]))
+             /\ Step(ImplSet(S, h, kv[1], kv[2]), ImplSet(S, h, kv[1], kv[2]) = SpecSet(S, h, kv[1], kv[2]),
+                     Op("set", h, "", <<>>, <<>>, "", kv[1], kv[3]))
+     \* another top-level New of the (now existing) base prefix
+     \/ /\ Room /\ Exists(S, <<>>)
+        /\ Step(ImplNewAt(S, <<>>), AdmNewAt(S, <<>>, ImplNewAt(S, <<>>)), Op("top", 0, "", <<>>, <<>>, "", "", 0))
 \* generator: a history of full length is printed once
 Done == /\ Emit /\ Len(hist) >= MaxOps
         /\ PrintT(<<"HIST", ToJson(hist)>>)
@@ -71,7 +79,7 @@ Spec == Init /\ [][Next \/ Done]_vars
 
 ImplRefines == ok
 OneOwner == NoDoubleOwner(S)
-Housed == MembersHoused(S)
+Housed == MembersHoused(S) /\ LimitsHoused(S)
 \* a directory is only ever removed by Destroy through a handle that created it (checked on every step)
 OnlyOwnersRemove ==
   [][\A c \in S.ctls : \A p \in S.dirs[c] \ S'.dirs[c] :
